@@ -272,6 +272,10 @@ func (self *BinaryConv) unmarshalSingular(ctx context.Context, resp http.Respons
 				return unwrapError(fmt.Sprintf("converting field %s of MESSAGE %s failed", fd.Name(), fd.Kind()), err)
 			}
 		}
+		// the records of a message fill it exactly: one that runs past the end was read from the bytes of the parent
+		if p.Read != start+l {
+			return wrapError(meta.ErrRead, "message content exceeds its length", nil)
+		}
 		*out = json.EncodeObjectEnd(*out)
 	default:
 		return wrapError(meta.ErrUnsupportedType, fmt.Sprintf("unknown descriptor type %s", fd.Type()), nil)
@@ -293,6 +297,10 @@ func (self *BinaryConv) unmarshalList(ctx context.Context, resp http.ResponseSet
 			return wrapError(meta.ErrRead, "unmarshal List Length error", err)
 		}
 		start := p.Read
+		// the length comes from the wire (int(uint64)): negative, or more than what is left (start+len may wrap)
+		if len < 0 || len > end-start {
+			return wrapError(meta.ErrRead, "packed List length exceeds the message", nil)
+		}
 		// parse Value repeated
 		for p.Read < start+len {
 			// an element that can't be decoded must end the conversion: it consumes nothing, so ignoring the
@@ -303,6 +311,10 @@ func (self *BinaryConv) unmarshalList(ctx context.Context, resp http.ResponseSet
 			if p.Read != start && p.Read != start+len {
 				*out = json.EncodeArrayComma(*out)
 			}
+		}
+		// the elements fill the payload exactly: the last one must not run past its end
+		if p.Read != start+len {
+			return wrapError(meta.ErrRead, "packed List element exceeds the payload", nil)
 		}
 	} else {
 		// unpackedList(format)：[Tag][Length][Value] [Tag][Length][Value]....
